@@ -31,8 +31,8 @@ type c12Scenario struct {
 
 func fld(name, kind string) *cField { return &cField{Name: name, Kind: kind} }
 
-func (f *cField) list() *cField         { f.List = true; return f }
-func (f *cField) mapf() *cField         { f.Map = true; f.List = false; return f }
+func (f *cField) list() *cField          { f.List = true; return f }
+func (f *cField) mapf() *cField          { f.Map = true; f.List = false; return f }
 func (f *cField) msg(m *VStruct) *cField { f.Kind = "message"; f.Msg = m; return f }
 func (f *cField) ann(k string, v Val) *cField {
 	if f.Ann == nil {
